@@ -299,14 +299,15 @@ impl<'a> CompilerState<'a> {
     fn line_index(&self, loc: usize) -> usize {
         let mut line_number: usize = 0;
         let mut char_number = 0;
+        // loc is a byte offset (pest positions are): count bytes, not characters
         for c in self.preprocessed_utf8.chars() {
-            if char_number == loc {
+            if char_number >= loc {
                 break;
             }
             if c == '\n' {
                 line_number += 1;
             }
-            char_number += 1;
+            char_number += c.len_utf8();
         }
         line_number.min(self.mapped_lines.len().saturating_sub(1))
     }
